@@ -2,12 +2,15 @@
 (* Workflow histories for the real scheduler: kinds, per run the version vector and the stages each
    system executes (A as built, F repaired) and the stages A replays against the reference. *)
 EXTENDS HandlesWf, Json
-VARIABLE whist
-WGInit == WInit /\ whist = <<>>
-WGNext == /\ WNext
+VARIABLES whist, wemitted
+WGInit == WInit /\ whist = <<>> /\ wemitted = FALSE
+WGStep == /\ WNext
           /\ whist' = Append(whist, [vers |-> prev', exA |-> lastA'.ex, exF |-> lastF'.ex,
                                      badA |-> lastA'.bad, fired |-> sysA'.fired])
-WGSpec == /\ WGInit /\ m = M0 /\ r = R0 /\ fired = {} /\ stale = FALSE /\ nops = 0 /\ lastop = NoOp
-          /\ [][WGNext /\ UNCHANGED vars]_<<wvars, vars, whist>>
-WEmit == (nruns = MaxRuns) => PrintT("WBEH " \o ToJson([kinds |-> kinds, runs |-> whist]))
+          /\ UNCHANGED wemitted
+WGEmit == /\ nruns = MaxRuns /\ ~wemitted
+          /\ PrintT("WBEH " \o ToJson([kinds |-> kinds, runs |-> whist]))
+          /\ wemitted' = TRUE /\ UNCHANGED <<wvars, whist>>
+WGSpec == /\ WGInit /\ m = M0 /\ mfix = M0 /\ r = R0 /\ fired = {} /\ stale = FALSE /\ nops = 0 /\ lastop = NoOp
+          /\ [][(WGStep \/ WGEmit) /\ UNCHANGED vars]_<<wvars, vars, whist, wemitted>>
 =============================================================================
